@@ -46,7 +46,7 @@ def run_one(run, timeout):
             if r is not None:
                 out["opt"] = [0, int(r[run["var"]])]
                 out["sols"] = [[int(v) for v in r][:len(P["vidx"])]]
-        out["stats"] = [int(v) for v in s.statistics]
+        out["stats"] = problems.user_stats(s)
     except _TO:
         out["ok"] = "skip"
         out["sols"] = []
